@@ -15,6 +15,7 @@ func init() {
 
 func runC19(c *Ctx) {
 	defer checkParamsUsed(c, "C19-R1", "internal/parser.NewParser")
+	defer c19AliasSharedByBothModes(c)
 	p := c.P
 	c.Rule("C19-R1", "single rule constructor shared by both modes", 5)
 	c.Rule("C19-R2", "strict path delegates with zero displacement and the live line table", 9)
@@ -961,3 +962,67 @@ func c19GroupKeys(c *Ctx, tryGroup, parseGroup *FuncInfo) {
 }
 
 func p19pos(c *Ctx, pos token.Pos) string { return c.P.Pos(pos) }
+
+// reachFuncs: module functions reachable from the roots through static calls
+// (and function values mentioned by name).
+func reachFuncs(p *Prog, roots ...*FuncInfo) map[*FuncInfo]bool {
+	seen := map[*FuncInfo]bool{}
+	work := append([]*FuncInfo{}, roots...)
+	for len(work) > 0 {
+		fi := work[len(work)-1]
+		work = work[:len(work)-1]
+		if fi == nil || seen[fi] || fi.Decl.Body == nil {
+			continue
+		}
+		seen[fi] = true
+		info := fi.Pkg.TypesInfo
+		ast.Inspect(fi.Decl.Body, func(n ast.Node) bool {
+			if id, ok := n.(*ast.Ident); ok {
+				if fn, isFn := info.Uses[id].(*types.Func); isFn {
+					if callee := p.FuncOf(fn); callee != nil && !seen[callee] {
+						work = append(work, callee)
+					}
+				}
+			}
+			return true
+		})
+	}
+	return seen
+}
+
+// c19AliasSharedByBothModes: yaml aliases (`rules: *anchor`, `<<: *base`) are
+// resolved only by code that both parser modes run. A function that follows
+// Node.Alias and is reachable from only one of the two entry points —
+// parseGroups for strict mode, Parser.parseNode for relaxed mode — makes that
+// mode see rules (or fields) the other one does not.
+func c19AliasSharedByBothModes(c *Ctx) {
+	R := "C19-R5"
+	p := c.P
+	strict := c.MustFunc(R, "internal/parser.parseGroups")
+	relaxed := c.MustFunc(R, "internal/parser.Parser.parseNode")
+	if strict == nil || relaxed == nil {
+		return
+	}
+	rs, rr := reachFuncs(p, strict), reachFuncs(p, relaxed)
+	n := 0
+	for _, fi := range p.AllFuncs() {
+		if fi.Decl.Body == nil || p.IsTestFile(fi.Decl.Pos()) || relPkg(fi.Pkg.PkgPath) != "internal/parser" {
+			continue
+		}
+		info := fi.Pkg.TypesInfo
+		reads := token.NoPos
+		ast.Inspect(fi.Decl.Body, func(nd ast.Node) bool {
+			if sel, ok := nd.(*ast.SelectorExpr); ok && sel.Sel.Name == "Alias" && strings.HasSuffix(fieldOwner(info, sel), ".Node") && strings.Contains(fieldOwner(info, sel), "yaml") && reads == token.NoPos {
+				reads = sel.Pos()
+			}
+			return true
+		})
+		if reads == token.NoPos || (!rs[fi] && !rr[fi]) {
+			continue
+		}
+		n++
+		c.Check(rs[fi] == rr[fi], R, strings.TrimPrefix(fi.Name, "internal/parser.")+":alias resolution is shared by both modes", reads, "reachable from parseGroups and from parseNode",
+			"this function follows a yaml alias and is reachable from "+map[bool]string{true: "strict", false: "relaxed"}[rs[fi]]+" mode only: a group or field written as an alias is parsed in one mode and not in the other, so the two modes no longer find the same rules")
+	}
+	c.Check(n >= 1, R, "alias-resolving functions of internal/parser enumerated", token.NoPos, itoa(n), "no function reads yaml.Node.Alias")
+}
